@@ -158,6 +158,9 @@ def parseV (l : Line) : Option VOp :=
   | "resize_v" => do some (.resizev (← l.nat? "n") (← v))
   | "assign_n" => do some (.assignn (← l.nat? "n") (← v))
   | "assign_r" => (l.natList? "xs").map .assignr
+  | "ctor_n" => (l.nat? "n").map .ctorN
+  | "ctor_nv" => do some (.ctorNV (← l.nat? "n") (← v))
+  | "ctor_r" => (l.natList? "xs").map .ctorR
   | "erase_if" => do some (.eraseIf (← l.nat? "md") (← l.nat? "r"))
   | "cctor" => some .cctor
   | "mctor" => some .mctor
@@ -186,6 +189,7 @@ def parseS (l : Line) : Option SOp :=
   | "swap" => some .swap
   | "swap_self" => some .swapSelf
   | "extract" => some .extract
+  | "replace" => (l.natList? "xs").map .replace
   | _ => none
 
 def parseX (l : Line) : Option XOp :=
@@ -219,6 +223,10 @@ def parseF (l : Line) : Option FOp :=
   | "fctor_m" => do some (.ctorMove (← j) (← v))
   | "fassign_c" => do some (.assignCopy (← j) (← v))
   | "fassign_m" => do some (.assignMove (← j) (← v))
+  | "fconv_cc" => do some (.conv false false (← j) (← v))
+  | "fconv_mc" => do some (.conv false true (← j) (← v))
+  | "fconv_ca" => do some (.conv true false (← j) (← v))
+  | "fconv_ma" => do some (.conv true true (← j) (← v))
   | "reset" => some .reset
   | "cctor" => some .cctor
   | "mctor" => some .mctor
